@@ -98,33 +98,35 @@ type line struct {
 // ---------------------------------------------------------------- per-property plan
 
 type plan struct {
-	Quick, Thorough int    // cases per VERIF_SEED value
-	ThoroughSeeds   int    // how many seed values the thorough tier iterates
-	Batch           int    // cases per worker job
-	Race            bool   // build with -race
-	Level           string // exploration | fault_enumeration
-	Rule            string
-	NeedTmp         bool
-	Helper          bool // build the C21 helper
-	Real            []string
-	Stub            []string
-	JobTimeout      time.Duration
+	Quick         int      `json:"quick"`          // cases per VERIF_SEED value, quick tier
+	Thorough      int      `json:"thorough"`       // cases per VERIF_SEED value, thorough tier
+	ThoroughSeeds int      `json:"thorough_seeds"` // how many seed values the thorough tier iterates
+	Batch         int      `json:"batch"`          // cases per worker job
+	Race          bool     `json:"race"`           // build with -race
+	Level         string   `json:"level"`          // exploration | fault_enumeration
+	Rule          string   `json:"rule"`
+	Helper        bool     `json:"helper"` // build the C21 helper
+	Real          []string `json:"real"`
+	Stub          []string `json:"stub"`
+	JobTimeoutSec int      `json:"job_timeout_sec"`
+	Exhaustive    bool     `json:"exhaustive"` // the harness enumerates a finite space completely
 }
 
 var commonReal = []string{"all murex code on the simulated path (instrumented only by mxinstr rules R1-R6)", "Go runtime 1.26.8", "testing/synctest fake clock and quiescence"}
 var commonStub = []string{"goroutine choice, clock and timers (simrt scheduler)", "terminal/readline (not started)", "external commands (not run)"}
 
-var plans = map[string]*plan{
-	"C01": {Quick: 24000, Thorough: 1500000, ThoroughSeeds: 3, Batch: 500, Level: "exploration",
-		Rule:  "case = generated (writers x chunk sizes, reader kind/buffer, buffer-limit knob, monitor, tee, ForceClose/endpoint faults) + seeded schedule; non-trivial = the run had >=2 tasks and >=1 context switch; distinct = distinct decision-trace hash (task label, yield site, #candidates per decision)",
-		Real:  []string{"builtins/pipes/streams (Stdin, Tee)", "lang/stdio templates (WriteTo)"},
-		Stub:  []string{"endpoint io.Reader/io.Writer arguments are harness objects (F-endpoint)"}},
-	"C04": {Quick: 4000, Thorough: 200000, ThoroughSeeds: 2, Batch: 125, Level: "exploration",
-		Rule: "case = generated chain (1-8 units of 1-3 piped `mk K exit` commands joined by ; newline && ||) + buffer-limit knob + seeded schedule(s); oracle = reference model of the statement (stdout markers, set of commands that ran, exit number); " + ruleTail,
-		Real: []string{"murex parser, interpreter (runModeNormal), process/fork model, streams"}},
-	"C05": {Quick: 4000, Thorough: 200000, ThoroughSeeds: 2, Batch: 125, Level: "exploration",
-		Rule: "case = generated chain inside try{} / trypipe{} / `runmode try|trypipe function` + buffer-limit knob + seeded schedule(s); oracle = reference model of the statement; " + ruleTail,
-		Real: []string{"murex parser, interpreter (runModeTry, runModeTryPipe, runmode compilation), process/fork model, streams"}},
+// plans are read from /verif/plans/<ID>.json
+func loadPlan(prop string) *plan {
+	b, err := os.ReadFile(filepath.Join(verifDir, "plans", prop+".json"))
+	if err != nil {
+		return nil
+	}
+	var p plan
+	if err := json.Unmarshal(b, &p); err != nil {
+		infra("plans/%s.json does not parse: %v", prop, err)
+	}
+	p.Rule = strings.ReplaceAll(p.Rule, "{tail}", ruleTail)
+	return &p
 }
 
 const ruleTail = "non-trivial = the run had >=2 tasks and >=1 context switch; distinct = distinct decision-trace hash (task label, yield site, #candidates per decision)"
@@ -525,7 +527,7 @@ func writeEvidence(ev *evidence) {
 
 func check(prop, tier string) int {
 	t0 := time.Now()
-	pl := plans[prop]
+	pl := loadPlan(prop)
 	if pl == nil {
 		infra("no plan for property %s", prop)
 	}
@@ -541,7 +543,7 @@ func check(prop, tier string) int {
 	worker, instr := prepare(pl.Race, pl.Helper)
 	defer cleanup()
 	fmt.Printf("mxsim: instrumented copy of /repo built in %.1fs (%s)\n", time.Since(t0).Seconds(), instr)
-	timeout := pl.JobTimeout
+	timeout := time.Duration(pl.JobTimeoutSec) * time.Second
 	if timeout == 0 {
 		timeout = 10 * time.Minute
 	}
@@ -892,7 +894,7 @@ func check(prop, tier string) int {
 	cov["real_code"] = append(append([]string{}, commonReal...), pl.Real...)
 	cov["stubbed"] = append(append([]string{}, commonStub...), pl.Stub...)
 	cov["instrumentation"] = instr
-	cov["exhaustive"] = false
+	cov["exhaustive"] = pl.Exhaustive
 	ev := &evidence{PropertyID: prop, Tier: tier, Seed: int64(seed), Level: pl.Level, Coverage: cov, WallS: wall, Violations: violations,
 		Assumptions: []string{"Go 1.26.8 toolchain and testing/synctest semantics (durable blocking, fake clock)",
 			"mxinstr preserves behaviour (murex's own suite passes on the instrumented copy with the simulator inactive)",
@@ -953,7 +955,7 @@ func replay(path string) int {
 	if err := json.Unmarshal(b, &rep); err != nil || rep.Case == nil {
 		infra("%s is not a replay file: %v", path, err)
 	}
-	pl := plans[rep.Property]
+	pl := loadPlan(rep.Property)
 	if pl == nil {
 		infra("no plan for property %s", rep.Property)
 	}
